@@ -6,7 +6,7 @@
       req.payment_hash == old(w).hash
 //@ requires#exclusive
       !old(w).released
-//@ requires#no_rpc_under_lock [C14,C06]
+//@ requires#no_rpc_under_lock [C14,C06,C11]
       !old(w).lock_held
 //@ requires#write_ahead [C08,C05]
 //    the in-flight marker is durable before the pay request is issued
@@ -25,7 +25,7 @@
 //    lowest expiry among the HTLCs held when the payment was initiated - height known - safety delta
       req.max_cltv_delta as int <= max0(old(w).min_expiry_read - old(w).height_read - old(w).cltv_delta as int)
       && req.max_cltv_delta as int <= old(w).pol_delta as int
-//@ requires#height_is_the_one_known_at_initiation [C04,C19]
+//@ requires#height_is_the_one_known_at_initiation [C04,C19,C20]
 //    the height used is not older than the best height known when the payment was initiated
       old(w).height_read >= old(w).height_at_init
 //@ requires#amount_rule [C03]
@@ -47,7 +47,7 @@
 //@ ghostparam Tracked(w): Tracked<&mut World>
 //@ requires#hash
       payment_hash == old(w).hash
-//@ requires#no_rpc_under_lock [C14,C06]
+//@ requires#no_rpc_under_lock [C14,C06,C11]
       !old(w).lock_held
 //@ requires#no_pay_running
       !old(w).pay_running
